@@ -19,9 +19,14 @@ pub struct Elapsed { pub x: u8 }
 #[verifier::reject_recursive_types(T)]
 pub struct BoundedAsyncSender<T> { x: core::marker::PhantomData<T> }
 impl BoundedAsyncSender<FrameBatch> {
+  // ghost oracle: the state of the pipe at the moment this call looks at it (at the high-water mark / closed by the session)
+  pub uninterp spec fn full(&self) -> bool;
+  pub uninterp spec fn closed(&self) -> bool;
   #[verifier::external_body]
   pub fn try_send(&self, item: FrameBatch) -> (r: Result<(), TrySendError<FrameBatch>>)
     ensures
+      (r matches Err(TrySendError::Full(_))) == (self.full() && !self.closed()),
+      (r matches Err(TrySendError::Closed(_))) == self.closed(),
       r matches Err(TrySendError::Full(b)) ==> b@ == item@,
       r matches Err(TrySendError::Closed(b)) ==> b@ == item@,
       !(r matches Err(TrySendError::Sent(_))),   // fibre documents Sent as unreachable for try_send
@@ -58,6 +63,7 @@ parts = [
   Fn(IF, "send_multipart_owned", impl=IMPL, emit_impl="impl ScaConnectionIface",
      ensures=[
        # SNDTIMEO = 0: would-block at once, and the batch comes back
+       ("C14:zero_sndtimeo_at_the_high_water_mark_fails_at_once_with_would_block", "self.sndtimeo matches Some(d) && d.ns() == 0 && self.pipe_sender.full() && !self.pipe_sender.closed() ==> (r matches Err(p) && p.1 is ResourceLimitReached)"),
        ("C14:zero_timeout_never_waits", "self.sndtimeo matches Some(d) && d.ns() == 0 && r is Err ==> (r matches Err(p) && p.0@ == msgs@ && ((p.1 is ResourceLimitReached) || (p.1 is ConnectionClosed)))"),
        # SNDTIMEO = -1 (None): waits for room, never answers would-block/timeout
        ("C14:infinite_timeout_never_times_out", "self.sndtimeo is None ==> !(r matches Err(p) && ((p.1 is ResourceLimitReached) || (p.1 is Timeout)))"),
@@ -68,6 +74,7 @@ parts = [
   Fn(IF, "send_multipart", impl=IMPL, emit_impl="impl ScaConnectionIface",
      ensures=[
        ("C14:errors_are_wouldblock_or_closed", "r matches Err(e) ==> (e is ResourceLimitReached) || (e is ConnectionClosed)"),
+       ("C14:zero_sndtimeo_at_the_high_water_mark_fails_at_once_with_would_block", "self.sndtimeo matches Some(d) && d.ns() == 0 && self.pipe_sender.full() && !self.pipe_sender.closed() ==> r matches Err(ZmqError::ResourceLimitReached)"),
        # recorded finding: SNDTIMEO = -1 falls back to a 30 s timed wait and then answers would-block
        ("C14:KF_infinite_timeout_never_times_out", "self.sndtimeo is None ==> !(r matches Err(e) && (e is ResourceLimitReached))"),
      ],
@@ -75,6 +82,7 @@ parts = [
   Fn(IF, "send_message", impl=IMPL, emit_impl="impl ScaConnectionIface",
      ensures=[
        ("C14:errors_are_wouldblock_or_closed", "r matches Err(e) ==> (e is ResourceLimitReached) || (e is ConnectionClosed)"),
+       ("C14:zero_sndtimeo_at_the_high_water_mark_fails_at_once_with_would_block", "self.sndtimeo matches Some(d) && d.ns() == 0 && self.pipe_sender.full() && !self.pipe_sender.closed() ==> r matches Err(ZmqError::ResourceLimitReached)"),
        ("C14:KF_infinite_timeout_never_times_out", "self.sndtimeo is None ==> !(r matches Err(e) && (e is ResourceLimitReached))"),
      ],
      extra=[TIMED, UNREACH, ZERO]),
